@@ -12,7 +12,7 @@ func init() {
 	Registry["C13"] = func(tier string) int {
 		return engineA("C13", tier, []scen.Spec{scen.BridgeSpec()},
 			func() []explore.Monitor { return []explore.Monitor{&mon.C13{}} },
-			budget(tier, 80*time.Second, 12*time.Minute),
+			budget(tier, 150*time.Second, 12*time.Minute),
 			"origin transaction identity is the literal (id, source) pair within a class, as the property states; replays that differ only in the letter case of the source are counted as information (info_case_variant_source_replays), not as violations")
 	}
 }
